@@ -192,3 +192,39 @@ reg(Spec('C20', ['c20:C20'],
          overrides={'*': {'ops_boost': {'race': 6, 'push': 3, 'gc': 2}, 'stall': 0.1, 'misuse': 0.03, 'no_manual_winc': True,
                           'small_closed': 0.5}},
          rule=R_RUN + 'non-trivial = frames of at least two kinds were delivered on streams after the local reset / push refusal' + R_DISTINCT))
+
+reg(Spec('C21', ['c21:C21'],
+         quick=[('DUPLEX', 800), ('FLOW', 500), ('CORRUPT', 800), ('ADV', 800), ('HDR', 400)],
+         thorough=[('DUPLEX', 20000), ('FLOW', 10000), ('CORRUPT', 20000), ('ADV', 20000), ('HDR', 10000), ('RACE', 10000)],
+         overrides={'*': {'ops_boost': {'settings': 2}}},
+         rule=R_RUN + 'each endpoint log is re-executed three times on fresh connections (all bytes between two calls at once; byte-at-a-time for inputs <= 4 KiB, a seeded random partition above; at-once with random data_to_send(amount) reads); '
+              'non-trivial = an endpoint received at least one byte (byte-at-a-time splits every frame header and the preface)' + R_DISTINCT,
+         assumptions=['output is compared at the points where the application made a call (no draining between chunks of one segment: '
+                      'a received GOAWAY discards pending output by design, C19)']))
+
+reg(Spec('C28', [],
+         quick=[('DUPLEX', 500), ('RACE', 300), ('HDR', 300), ('CORRUPT', 300), ('ADV', 300), ('MISUSE', 300)],
+         thorough=[('DUPLEX', 6000), ('RACE', 4000), ('HDR', 4000), ('CORRUPT', 4000), ('ADV', 4000), ('MISUSE', 4000), ('FLOW', 2000), ('UPGRADE', 2000)],
+         rule='one evaluation = one simulated run whose recorded trace is re-executed in fresh interpreter processes under other PYTHONHASHSEED values; '
+              'digests of every output byte, event (type + public fields) and exception (type, code) of both endpoints must be identical; '
+              'non-trivial = more than 10 steps; distinct = distinct abstract traces',
+         budget=(600, 3000)))
+
+reg(Spec('C25', ['c25:C25', 'c25:C25E2E'],
+         quick=[('UPGRADE', 4000)],
+         thorough=[('UPGRADE', 100000)],
+         overrides={'*': {'matrix_outbound': False, 'small_closed': 0.0, 'small_backlog': False, 'upgrade_full_space': 0.4,
+                          'upgrade_misuse_stream1': 0.3}},
+         rule=R_RUN + 'started through initiate_upgrade_connection on both sides; non-trivial = non-default client settings were handed over, or the client tried to send on stream 1' + R_DISTINCT,
+         assumptions=['client settings are installed before the upgrade the only way the API offers (conn.local_settings = Settings(...)); runs that continue with '
+                      'traffic keep INITIAL_WINDOW_SIZE, MAX_FRAME_SIZE, MAX_HEADER_LIST_SIZE and HEADER_TABLE_SIZE at their defaults (state derived in __init__), '
+                      'runs over the whole settings space judge the settings view only']))
+
+reg(Spec('C27', ['c27:C27'],
+         quick=[('LONG', 96), ('ADV', 1500), ('HDR', 500)],
+         thorough=[('LONG', 1600), ('ADV', 40000), ('HDR', 10000)],
+         overrides={'LONG': {}, 'ADV': {'big_headers': 0.3}, 'HDR': {'big_headers': 0.4}},
+         budget=(600, 5400),
+         rule=R_RUN + 'LONG runs feed 4k-20k (quick) adversary frames that open, close, reset and reference streams to one real endpoint; '
+              'non-trivial = an endpoint received at least 2000 frames; retained-table sizes are read after every step' + R_DISTINCT,
+         assumptions=['table sizes are read from the attributes the property names (streams, _closed_streams, incoming_buffer); a missing attribute disables that measurement instead of alarming']))
